@@ -22,5 +22,8 @@ def check(ctx, rep):
              ctx.prog.func('parso/python/errors.py', 'ErrorFinder.initialize'), ctx.prog.func('parso/python/errors.py', 'ErrorFinder.finalize')]
     eff.eff_2(ctx, rep, roots, 'iter_errors')
     eff.eff_4(ctx, rep, roots)
+    # no state outlives a call: no shared write reachable from the entry points of this property
+    from ..rules import eff as _eff
+    _eff.eff_1(ctx, rep, only=[('parso/grammar.py', 'Grammar.iter_errors'), ('parso/grammar.py', 'Grammar._get_normalizer_issues')], minimum=20)
     rep.note('Not decided: absence of every implicit exception (None dereferences that depend on tree invariants), '
              'position ranges. Dependency: RX-1 (C09) - two rules call _split_prefix.')
